@@ -137,7 +137,10 @@ type H2End struct {
 	pendStream      map[uint32]int // received, not yet granted back
 	pendConn        int
 	NoAutoGrant     bool
-	NeverGrant      bool // with NoAutoGrant: no grant actions are offered either (credit only through GrantExtra)
+	sawFirstFrame   bool
+	// FirstFrameNotSettings names the type of the first frame received when it was not SETTINGS.
+	FirstFrameNotSettings string
+	NeverGrant            bool // with NoAutoGrant: no grant actions are offered either (credit only through GrantExtra)
 
 	opened     map[uint32]bool // streams opened by the client as seen by this end
 	rstSeen    map[uint32]bool
@@ -602,6 +605,15 @@ func (e *H2End) finishHeaders(end bool) {
 
 func (e *H2End) onFrame(f http2.Frame, ln int) {
 	step := e.k.StepN
+	if !e.sawFirstFrame {
+		// RFC 7540 section 3.5: the peer's connection preface starts with a SETTINGS frame, which
+		// MUST be the first frame it sends. (A client may send frames right after its own preface,
+		// so a relay can have something of its own to say before the server has spoken.)
+		e.sawFirstFrame = true
+		if sf, ok := f.(*http2.SettingsFrame); !ok || sf.IsAck() {
+			e.FirstFrameNotSettings = fmt.Sprintf("%v", f.Header().Type)
+		}
+	}
 	if cf, ok := f.(*http2.ContinuationFrame); ok {
 		if e.hdrEv != nil && cf.StreamID != e.hdrEv.Stream {
 			e.RdErr = fmt.Errorf("CONTINUATION on stream %d while the header block of stream %d is in progress", cf.StreamID, e.hdrEv.Stream)
@@ -721,7 +733,11 @@ func (e *H2End) onFrame(f http2.Frame, ln int) {
 			return nil
 		})
 		e.Recv = append(e.Recv, H2Ev{Kind: "settings", Settings: ss, Step: step})
-		// a well-behaved peer acknowledges at once
+		// a well-behaved peer acknowledges at once - but its own SETTINGS frame is the first frame
+		// it sends (RFC 7540 section 3.5), so that goes out first if it has not yet
+		if e.next == 0 && len(e.Script) > 0 && e.Script[0].Kind == "settings" && !e.closedSelf {
+			e.doNext()
+		}
 		e.wfr.WriteSettingsAck()
 		e.flush()
 	case *http2.PingFrame:
